@@ -110,19 +110,25 @@ let model_step thr (ms : etag dstate) (e : mdev) : etag dstate =
 let connack_ok = "x2003000000" and connack_fail = "x2003008700"
 let publish_q0 = "x300500017400" ^ "41" and server_disconnect = "xe000" and pingresp = "xd000" and garbage = "x0000"
 type rx = RConnackOk | RConnackFail | RPublish | RDisconnect | RPingresp | RGarbage | RConnackOkPublish | RPublishPublish
+        | RPublishDisconnect | RPublishGarbage | RPublishConnack    (* a publish followed, in the SAME read, by something that fails the call *)
 let rx_hex = function
   | RConnackOk -> connack_ok | RConnackFail -> connack_fail | RPublish -> publish_q0 | RDisconnect -> server_disconnect
   | RPingresp -> pingresp | RGarbage -> garbage
   | RConnackOkPublish -> connack_ok ^ String.sub publish_q0 1 (String.length publish_q0 - 1)
   | RPublishPublish -> publish_q0 ^ String.sub publish_q0 1 (String.length publish_q0 - 1)
+  | RPublishDisconnect -> publish_q0 ^ String.sub server_disconnect 1 (String.length server_disconnect - 1)
+  | RPublishGarbage -> publish_q0 ^ String.sub garbage 1 (String.length garbage - 1)
+  | RPublishConnack -> publish_q0 ^ String.sub connack_ok 1 (String.length connack_ok - 1)
 let rx_packets = function
-  | RConnackOkPublish -> [RConnackOk; RPublish] | RPublishPublish -> [RPublish; RPublish] | r -> [r]
+  | RConnackOkPublish -> [RConnackOk; RPublish] | RPublishPublish -> [RPublish; RPublish]
+  | RPublishDisconnect -> [RPublish; RDisconnect] | RPublishGarbage -> [RPublish; RGarbage] | RPublishConnack -> [RPublish; RConnackOk] | r -> [r]
 let rx_of_hex (h : string) : rx option =
-  L.find_opt (fun r -> rx_hex r = h) [RConnackOk; RConnackFail; RPublish; RDisconnect; RPingresp; RGarbage; RConnackOkPublish; RPublishPublish]
+  L.find_opt (fun r -> rx_hex r = h) [RConnackOk; RConnackFail; RPublish; RDisconnect; RPingresp; RGarbage; RConnackOkPublish; RPublishPublish; RPublishDisconnect; RPublishGarbage; RPublishConnack]
 
 (* what the engine is expected to report as packet events for a fragment (generator knowledge, see header) *)
 let expected_pevents (tag : etag) (connect_flushed : bool) (r : rx) : pevent list =
-  if r = RGarbage || tag = TDisconnected || tag = THalted || (tag = TPendingConnack && not connect_flushed) then [] else
+  (* a read that does not decode completely is rejected as a whole: packets decoded in front of the failure are not handled *)
+  if L.mem RGarbage (rx_packets r) || tag = TDisconnected || tag = THalted || (tag = TPendingConnack && not connect_flushed) then [] else
     let rec go t = function
       | [] -> []
       | RConnackOk :: rest -> if t = TPendingConnack then PeConnack true :: go TConnected rest else []
@@ -273,6 +279,13 @@ let sim_event c (e : mdev) =
         let s = send c ("KDATA " ^ hx) in
         let pes = (match rx_of_hex hx with Some r -> expected_pevents before.eng c.connect_flushed r | None -> []) in
         ev_slot := Some (resp_of s pes);
+        (* C05 at the client level: every PUBLISH the engine processes in this read is surfaced to the listeners by this very
+           call, whatever the call's outcome (the packets in front of a failing one were processed) *)
+        let expect_pub = L.length (L.filter (fun pe -> pe = PePublish) pes) in
+        let got_pub = L.length (L.filter (fun e -> e = "Publish") s.evs) in
+        if s.outcome <> "panic" && got_pub <> expect_pub then
+          add_fail c "property" "C05:client-surfacing"
+            (Printf.sprintf "IncomingData %s (engine %s, outcome %s): %d PUBLISH processed by the engine, %d surfaced to the client's listeners" hx (etag_to before.eng) s.outcome expect_pub got_pub);
         if not (fact_data before.eng pes s.eng) then
           add_fail c "property" "engine-fact:data" (Printf.sprintf "IncomingData %s moved the engine from %s to %s" hx (etag_to before.eng) (etag_to s.eng));
         if s.outcome = "ok" then sim_after_event c
@@ -396,7 +409,8 @@ let gen_op r : (uop, string) cop =
 let gen_rx r (tag : etag) : rx =
   let k = rand_int r 100 in
   if tag = TPendingConnack then (if k < 60 then RConnackOk else if k < 72 then RConnackFail else if k < 80 then RConnackOkPublish else if k < 88 then RPublish else if k < 94 then RGarbage else RDisconnect)
-  else (if k < 45 then RPublish else if k < 55 then RPublishPublish else if k < 70 then RDisconnect else if k < 80 then RConnackOk else if k < 88 then RPingresp else RGarbage)
+  else (if k < 40 then RPublish else if k < 48 then RPublishPublish else if k < 53 then RPublishDisconnect else if k < 57 then RPublishGarbage else if k < 60 then RPublishConnack
+        else if k < 72 then RDisconnect else if k < 80 then RConnackOk else if k < 88 then RPingresp else RGarbage)
 
 (* next event, looking at the implementation's current state (only to bias the choice) *)
 let gen_event r (c : ctx) : mdev =
